@@ -5,10 +5,9 @@ patch=$1; shift
 props=${@:-$(python3 -c "import json;print(' '.join(c['property_id'] for c in json.load(open('MANIFEST.json'))['checks']))")}
 git -C /repo apply "$patch" || { echo "patch does not apply to /repo"; exit 3; }
 mkdir -p /tmp/seed_ev_$$/evidence; cp known_findings.json /tmp/seed_ev_$$/; hit=""
-for p in $props; do
-  out=$(bin/stfscheck -p $p -tier quick -verif /tmp/seed_ev_$$ 2>&1); e=$?
-  if [ $e -ne 0 ]; then hit="$hit $p"; echo "$out" | grep -E "^  (VIOLATED|UNDECIDED)|^BROKEN|^UNRESOLVED" | cut -c1-330; fi
-done
+out=$(bin/stfscheck -p all -tier quick -verif /tmp/seed_ev_$$ 2>&1)
+echo "$out" | grep -E "^  (VIOLATED|UNDECIDED)|^BROKEN|^UNRESOLVED" | cut -c1-330
+hit=$(echo "$out" | grep -E "^result C[0-9]+:.*exit=[12]" | sed -E 's/^result (C[0-9]+):.*/\1/' | tr '\n' ' ')
 git -C /repo checkout -- . ; git -C /repo clean -qfd
 rm -rf /tmp/seed_ev_$$
 echo "FLAGGED BY:${hit:- none}"
